@@ -24,6 +24,10 @@ pub enum Ev {
     /// `label_offset` = difference between the epoch the registration is labelled with and the epoch
     /// of the open round (0 = as an honest signer does)
     Register { who: Vec<usize>, label_offset: i64 },
+    /// what a real signer does every epoch: register (honest round label) with a NEWLY generated key,
+    /// KES-certified with the party's own operational certificate; possibly the second registration
+    /// of the party in the round (the last acknowledged one is the key in force)
+    RegisterFreshKey { who: Vec<usize> },
     /// sign the open message the aggregator is (or would be) working on for a discriminant
     Sign { disc: SignedEntityTypeDiscriminants, who: Vec<usize>, mode: SignMode, authenticated: bool },
     Expire { disc: SignedEntityTypeDiscriminants },
@@ -91,6 +95,9 @@ pub struct Model {
     pub genesis_epochs: Vec<u64>,
     /// epochs without an entry: everybody (used by workloads in which every signer always registers)
     pub default_all: bool,
+    /// (signing epoch, fixture index) -> the key the party registered LAST (acknowledged) for that
+    /// epoch when it is not the fixture's key, with the initializer that signs with it
+    pub keys: BTreeMap<(u64, usize), (SignerWithStake, mithril_common::crypto_helper::ProtocolInitializer)>,
 }
 
 pub struct Run {
@@ -105,6 +112,7 @@ pub struct Run {
     pub transitions_seen: BTreeSet<String>,
     pub state_event_pairs: BTreeSet<String>,
     pub chain_epoch: u64,
+    pub key_counter: u64,
 }
 
 fn disc_name(d: SignedEntityTypeDiscriminants) -> String {
@@ -143,7 +151,7 @@ impl Run {
         Ok(Run {
             sim,
             fixture,
-            model: Model { signing_set, genesis_epochs: vec![start_epoch], default_all: false },
+            model: Model { signing_set, genesis_epochs: vec![start_epoch], default_all: false, keys: BTreeMap::new() },
             log: vec![],
             deliveries: vec![],
             prev,
@@ -152,6 +160,7 @@ impl Run {
             transitions_seen: BTreeSet::new(),
             state_event_pairs: BTreeSet::new(),
             chain_epoch: start_epoch,
+            key_counter: 0,
         })
     }
 
@@ -167,7 +176,7 @@ impl Run {
         Ok(Run {
             sim,
             fixture,
-            model: Model { signing_set: BTreeMap::new(), genesis_epochs, default_all: true },
+            model: Model { signing_set: BTreeMap::new(), genesis_epochs, default_all: true, keys: BTreeMap::new() },
             log: vec![],
             deliveries: vec![],
             prev,
@@ -176,6 +185,7 @@ impl Run {
             transitions_seen: BTreeSet::new(),
             state_event_pairs: BTreeSet::new(),
             chain_epoch,
+            key_counter: 0,
         })
     }
 
@@ -186,10 +196,19 @@ impl Run {
     /// signers (with stake) the model says are in force at `epoch`
     pub fn signers_at(&self, epoch: u64) -> Vec<SignerWithStake> {
         let all = self.fixture.signers_with_stake();
+        let key_of = |i: usize| self.model.keys.get(&(epoch, i)).map(|k| k.0.clone()).unwrap_or_else(|| all[i].clone());
         match self.model.signing_set.get(&epoch) {
-            Some(s) => s.iter().map(|&i| all[i].clone()).collect(),
-            None if self.model.default_all => all,
+            Some(s) => s.iter().map(|&i| key_of(i)).collect(),
+            None if self.model.default_all => (0..all.len()).map(key_of).collect(),
             None => vec![],
+        }
+    }
+
+    /// the initializer holding the key party `i` registered for signing at `epoch`
+    pub fn initializer_at(&self, epoch: u64, i: usize) -> mithril_common::crypto_helper::ProtocolInitializer {
+        match self.model.keys.get(&(epoch, i)) {
+            Some(k) => k.1.clone(),
+            None => self.fixture.signers_fixture()[i].protocol_initializer.clone(),
         }
     }
 
@@ -244,7 +263,8 @@ impl Run {
                 }
             }
             82 => Ev::Blocks(15 + rnd::below(rng, 30)),
-            83..=91 => Ev::Register { who: subset(rng, 70), label_offset: if rnd::chance(rng, 1, 6) { *rnd::pick(rng, &[-2i64, -1, 1]) } else { 0 } },
+            83..=85 => Ev::RegisterFreshKey { who: subset(rng, 50) },
+            86..=91 => Ev::Register { who: subset(rng, 70), label_offset: if rnd::chance(rng, 1, 6) { *rnd::pick(rng, &[-2i64, -1, 1]) } else { 0 } },
             92..=93 => Ev::Expire { disc: if open_discs.is_empty() { *rnd::pick(rng, &DISCS) } else { *rnd::pick(rng, open_discs) } },
             94..=97 => Ev::Restart,
             _ => Ev::Tick,
@@ -281,6 +301,7 @@ impl Run {
             Ev::Blocks(_) => "blocks",
             Ev::Register { label_offset: 0, .. } => "register",
             Ev::Register { .. } => "register-wrong-round-label",
+            Ev::RegisterFreshKey { .. } => "register-fresh-key",
             Ev::Sign { mode: SignMode::Valid, .. } => "sign-valid",
             Ev::Sign { mode: SignMode::Repeat, .. } => "sign-repeat",
             Ev::Sign { mode: SignMode::WrongMessage, .. } => "sign-wrong-message",
@@ -349,9 +370,57 @@ impl Run {
                         // yet): it then belongs to that round. An aggregator that files it under
                         // another round disagrees with this model and M3 judges the key.
                         self.model.signing_set.entry(*reg_epoch + 1).or_default().insert(i);
+                        // the fixture's key is now the last one acknowledged for that round
+                        self.model.keys.remove(&(*reg_epoch + 1, i));
                     }
                     if ok && *label_offset != 0 {
                         mon.count("diag:registration_with_wrong_round_label_acknowledged");
+                    }
+                    acks.push(json!({"signer": i, "ack": ok, "err": r.err().map(|e| format!("{e:?}").chars().take(120).collect::<String>())}));
+                    mon.count(if ok { "registration_acked" } else { "registration_refused" });
+                }
+                entry["replies"] = json!(acks);
+            }
+            Ev::RegisterFreshKey { who } => {
+                use mithril_common::crypto_helper::{KesPeriod, KesSigner, KesSignerStandard, ProtocolInitializer};
+                let label = Epoch(self.chain_epoch).offset_to_recording_epoch();
+                let fixtures = self.fixture.signers_fixture();
+                let pp = self.sim.cfg.protocol_parameters.clone();
+                let mut acks = vec![];
+                for &i in who {
+                    let f = &fixtures[i];
+                    let (Some(sk), Some(oc)) = (f.kes_secret_key_path(), f.operational_certificate_path()) else {
+                        mon.count("register_fresh_key:fixture_without_kes_material");
+                        continue;
+                    };
+                    let kes = Arc::new(KesSignerStandard::new(sk.to_path_buf(), oc.to_path_buf())) as Arc<dyn KesSigner>;
+                    let stake = f.signer_with_stake.stake;
+                    self.key_counter += 1;
+                    let mut seed = [0u8; 32];
+                    seed[..8].copy_from_slice(&self.key_counter.to_le_bytes());
+                    seed[8..16].copy_from_slice(&(i as u64).to_le_bytes());
+                    seed[16..24].copy_from_slice(&self.chain_epoch.to_le_bytes());
+                    let mut krng = <ChaCha20Rng as rand_core::SeedableRng>::from_seed(seed);
+                    let Ok(pi) = ProtocolInitializer::setup(pp.clone().into(), Some(kes), Some(KesPeriod(0)), stake, &mut krng) else {
+                        mon.count("register_fresh_key:setup_failed");
+                        continue;
+                    };
+                    let signer = Signer {
+                        party_id: f.signer_with_stake.party_id.clone(),
+                        verification_key_for_concatenation: pi.verification_key_for_concatenation().into(),
+                        verification_key_signature_for_concatenation: pi.verification_key_signature_for_concatenation(),
+                        operational_certificate: f.signer_with_stake.operational_certificate.clone(),
+                        kes_evolutions: Some(mithril_common::crypto_helper::KesEvolutions(0)),
+                    };
+                    let r = self.sim.deps.signer_registerer.register_signer(label, &signer).await;
+                    let ok = match &r {
+                        Ok(_) => true,
+                        Err(e) => format!("{e:?}").contains("ExistingSigner"),
+                    };
+                    if ok {
+                        self.model.signing_set.entry(*label + 1).or_default().insert(i);
+                        self.model.keys.insert((*label + 1, i), (SignerWithStake::from_signer(signer, stake), pi));
+                        mon.count(if r.is_ok() { "register_fresh_key:first_registration_of_the_party_in_the_round" } else { "register_fresh_key:replaces_an_earlier_registration_of_the_round" });
                     }
                     acks.push(json!({"signer": i, "ack": ok, "err": r.err().map(|e| format!("{e:?}").chars().take(120).collect::<String>())}));
                     mon.count(if ok { "registration_acked" } else { "registration_refused" });
@@ -397,6 +466,9 @@ impl Run {
                 let all: BTreeSet<usize> = (0..self.n_signers()).collect();
                 self.model.signing_set.insert(self.chain_epoch, all.clone());
                 self.model.signing_set.insert(self.chain_epoch + 1, all);
+                // the re-bootstrap stores the fixture's keys for these two epochs
+                let ce = self.chain_epoch;
+                self.model.keys.retain(|(e, _), _| *e != ce && *e != ce + 1);
                 self.model.genesis_epochs.push(self.chain_epoch);
             }
         }
@@ -473,7 +545,7 @@ impl Run {
             let in_set = self.model.signing_set.get(&epoch).map(|s| s.contains(&i)).unwrap_or(self.model.default_all);
             // a signer outside the epoch's set signs with the whole-fixture registration it knows
             let sig: Option<SingleSignature> = if in_set {
-                match builder.restore_signer_from_initializer(party.clone(), f.protocol_initializer.clone()) {
+                match builder.restore_signer_from_initializer(party.clone(), self.initializer_at(epoch, i)) {
                     Ok(s) => {
                         let msg_to_sign = if mode == SignMode::WrongMessage {
                             let mut m = message.clone();
